@@ -205,14 +205,16 @@ def embed_case(draw):
     dims = gen.dims_of(g)
     single = [d for d in dims if len(d) == 1 and d.islower()]
     bck = draw(st.integers(0, 5))
+    axis = draw(st.integers(0, nd - 1))
     if bck <= 2:
-        bc = "".join(d for d in single if draw(st.booleans()))
+        # the differentiated axis is periodic whenever its name allows it (bck 0, 1), others at random
+        bc = "".join(d for d in single if (d == dims[axis] and bck <= 1) or draw(st.booleans()))
     elif bck == 3:
         bc = draw(st.sampled_from(["neumann", "dirichlet"]))  # not periodic, whatever the dimensions are called
     else:
         bc = ""
     return {"g": g, "nvdim": draw(st.integers(1, 4)), "seed": draw(st.integers(0, 2**31)),
-            "mask": draw(gen.mask_spec(nd)), "axis": draw(st.integers(0, nd - 1)), "order": draw(st.integers(1, 2)),
+            "mask": draw(gen.mask_spec(nd)), "axis": axis, "order": draw(st.integers(1, 2)),
             "bc": bc, "r2v": draw(st.booleans()), "vdims": None, "unit": draw(st.sampled_from(gen.FIELD_UNITS))}
 
 
